@@ -88,7 +88,10 @@ def build(stages_file, out_file, limit=None):
                           "by": row.get("solved_by") if isinstance(row.get("solved_by"), str) else "ABSENT",
                           "issue": "absent" if issue == "ABSENT" else ("empty" if issue == "" else "text"),
                           "mcs": "absent" if "mcs" not in row else ("none" if row["mcs"] is None else "present"),
-                          "clabel": row.get("carbon_balance_check", "unset"), "ulabel": row.get("unbalance_col", "unset"),
+                          # before the first validation the column can only hold what arrived with the input row
+                          # (pass-through data, not pipeline state)
+                          "clabel": "unset" if name == "preprocess" else row.get("carbon_balance_check", "unset"),
+                          "ulabel": row.get("unbalance_col", "unset"),
                           "conf": conf})
         if not ok:
             skipped += 1
